@@ -31,35 +31,53 @@ class LoopSpec:
   havoc: Callable[[str, object], object]         # (name, old value) -> fresh symbolic value of the same shape
   decreases: Callable[[dict], object] = None     # locals -> SymInt (must be >= 0 and strictly decrease)
   name: str = "loop"
+  on_yield: Callable[[object, dict], object] = None   # (yielded value, locals) -> condition proved at every `yield` of the loop body
+  ghosts: dict = field(default_factory=dict)     # ghost loop variables: name -> (initial value, havoc() -> fresh value, update(value) -> value after one iteration)
 
 
 class _Runtime:
   def __init__(self, specs: Dict[int, LoopSpec], label: str):
     self.specs = specs
     self.label = label
+    self.g = {}
+
+  def _loc(self, k, loc):
+    d = dict(loc)
+    d.update(self.g.get(k, {}))
+    return d
 
   def init(self, k, loc):
-    core.prove(self.specs[k].invariant(loc), f"{self.label}/loop{k}/inv-init", kind="inv-init")
+    self.g[k] = {n: v[0] for n, v in self.specs[k].ghosts.items()}
+    core.prove(self.specs[k].invariant(self._loc(k, loc)), f"{self.label}/loop{k}/inv-init", kind="inv-init")
 
   def havoc(self, k, values):
     sp = self.specs[k]
+    self.g[k] = {n: v[1]() for n, v in sp.ghosts.items()}
     out = tuple(sp.havoc(n, v) for n, v in zip(sp.modifies, values))
     return out if len(out) != 1 else (out[0],)
 
   def assume_inv(self, k, loc):
-    core.assume(self.specs[k].invariant(loc))
+    core.assume(self.specs[k].invariant(self._loc(k, loc)))
 
   def measure(self, k, loc):
     sp = self.specs[k]
-    return sp.decreases(loc) if sp.decreases else None
+    return sp.decreases(self._loc(k, loc)) if sp.decreases else None
+
+  def yielded(self, k, value, loc):
+    sp = self.specs[k]
+    core.prove(sp.on_yield(value, self._loc(k, loc)), f"{self.label}/loop{k}/yield", kind="post")
 
   def step(self, k, loc, d0):
     sp = self.specs[k]
-    core.prove(sp.invariant(loc), f"{self.label}/loop{k}/inv-step", kind="inv-step")
+    self.g[k] = {n: sp.ghosts[n][2](v) for n, v in self.g[k].items()}
+    core.prove(sp.invariant(self._loc(k, loc)), f"{self.label}/loop{k}/inv-step", kind="inv-step")
     if sp.decreases:
-      d1 = sp.decreases(loc)
+      d1 = sp.decreases(self._loc(k, loc))
       core.prove((d0 >= 0) & (d1 < d0), f"{self.label}/loop{k}/decreases", kind="decreases")
     raise core.PathAbort("loop cut: arbitrary iteration done")
+
+  def exit_locals(self, k, loc):
+    return self._loc(k, loc)
 
 
 class _Cutter(ast.NodeTransformer):
@@ -71,10 +89,10 @@ class _Cutter(ast.NodeTransformer):
     self.generic_visit(node)
     return node
 
-  def _check_body(self, body):
+  def _check_body(self, body, allow_yield=False):
     for n in body:
       for m in ast.walk(n):
-        if isinstance(m, (ast.Break, ast.Continue, ast.Return, ast.Yield, ast.YieldFrom)):
+        if isinstance(m, (ast.Break, ast.Continue, ast.Return, ast.YieldFrom)) or (isinstance(m, ast.Yield) and not allow_yield):
           raise core.Unsupported("loop cut: break/continue/return/yield inside a cut loop")
 
   def visit_While(self, node: ast.While):
@@ -85,8 +103,20 @@ class _Cutter(ast.NodeTransformer):
       return node
     if node.orelse:
       raise core.Unsupported("loop cut: while/else")
-    self._check_body(node.body)
     sp = self.specs[k]
+    self._check_body(node.body, allow_yield=sp.on_yield is not None)
+    if sp.on_yield is not None:
+      # `yield X` as a statement of a generator loop becomes an obligation about X (the generator turns into a plain function)
+      new_body = []
+      for st in node.body:
+        if isinstance(st, ast.Expr) and isinstance(st.value, ast.Yield):
+          st = ast.Expr(ast.Call(func=ast.Attribute(value=ast.Name(id="__vc_loop__", ctx=ast.Load()), attr="yielded", ctx=ast.Load()),
+                                 args=[ast.Constant(value=k), st.value.value or ast.Constant(value=None),
+                                       ast.Call(func=ast.Name(id="locals", ctx=ast.Load()), args=[], keywords=[])], keywords=[]))
+        elif any(isinstance(m, ast.Yield) for m in ast.walk(st)):
+          raise core.Unsupported("loop cut: yield used as an expression")
+        new_body.append(st)
+      node.body = new_body
     names = sp.modifies
     rt = "__vc_loop__"
 
